@@ -7,7 +7,7 @@ THEOREMS = ["IsoVerif.Props.C27.C27_param", "IsoVerif.Props.C27.C27_type_text", 
             "IsoVerif.Props.C27.C27_witness_empty_selection", "IsoVerif.Props.C27.C27_witness_fragment_overlap"]
 HARNESS = ("hx_printers", {"HX_ENGINE": "printers", "HX_PROP": "C27"})
 DRIVER = "drv_printers"
-CASES = {"quick": 100, "thorough": 6000}
+CASES = {"quick": 70, "thorough": 6000}
 TECHNIQUE = ("Lean 4 theorems over executable models of the parameter-type and raw-response-type printers: one property per selection, type text = rendering of the "
              "schema type's nullable/list structure, raw response type = keys/nesting/list structure of the operation's selection tree (fuel-indexed recursion with a termination theorem); "
              "byte-for-byte correspondence of param_type.ts and raw_response_type.ts with the real compiler; oracle parses the implementation's type texts")
